@@ -1,0 +1,15 @@
+//go:build verif
+
+package table
+
+import "github.com/lindb/lindb/pkg/bufioutil"
+
+// VerifGetWriterFunc returns the table file writer constructor (verification harness only).
+func VerifGetWriterFunc() func(fileName string) (bufioutil.BufioWriter, error) {
+	return newBufioWriterFunc
+}
+
+// VerifSetWriterFunc replaces the table file writer constructor.
+func VerifSetWriterFunc(fn func(fileName string) (bufioutil.BufioWriter, error)) {
+	newBufioWriterFunc = fn
+}
